@@ -364,7 +364,7 @@ fn profile_for_quick(prop: &str) -> PProfile {
         "C02" => PProfile { keys: (1, 5), get_mut_write: true, chaos_clear_pct: 25, collide_pct: 30, lookup_pct: 35, validator_pct: 15, wait_pct: 12, ..d },
         "C06" => PProfile { chaos_clear_pct: 30, over_capacity_pct: 60, ttl_pct: 35, small_buffer_pct: 25, ..d },
         "C07" => PProfile { clients: (1, 3), keys: (4, 16), over_capacity_pct: 100, lookup_pct: 50, ttl_pct: 5, remove_pct: 5, chaos_umc_pct: 20, ops: (10, 40), collide_pct: 0, ..d },
-        "C08" => PProfile { chaos_clear_pct: 15, over_capacity_pct: 60, exit_only_cb_pct: 20, ttl_pct: 30, ..d },
+        "C08" => PProfile { chaos_clear_pct: 15, chaos_close_pct: 20, over_capacity_pct: 60, exit_only_cb_pct: 20, ttl_pct: 30, ..d },
         "C10" => PProfile { wait_pct: 25, chaos_clear_pct: 35, chaos_close_pct: 35, small_buffer_pct: 50, lookup_pct: 10, ops: (3, 12), ..d },
         "C11" => PProfile { chaos_clear_pct: 70, inline_clear_pct: 10, metrics_on: true, ops: (3, 14), ..d },
         "C12" => PProfile { chaos_close_pct: 70, chaos_clear_pct: 40, finale_close_pct: 50, finale_drop_pct: 40, wait_pct: 8, ops: (2, 10), small_buffer_pct: 30, ..d },
@@ -762,6 +762,9 @@ pub fn gen_enum_chaos(prop: &str, seed: u64, variant: u64) -> Plan {
 }
 
 pub fn gen_plan(prop: &str, seed: u64, variant: u64) -> Plan {
+    // experiments: judge property X on the scenario family of property Y (DST_GEN=Y)
+    let over = std::env::var("DST_GEN").ok();
+    let prop = over.as_deref().unwrap_or(prop);
     match prop {
         "C03" if variant % 4 == 2 => gen_p_family(prop, seed, &PProfile { ttl_pct: 70, lookup_pct: 45, over_capacity_pct: 30, remove_pct: 8, ..PProfile::default() }),
         "C04" if variant % 4 == 2 => gen_p_family(prop, seed, &PProfile { over_capacity_pct: 0, collide_pct: 0, ttl_pct: 30, remove_pct: 10, if_present_pct: 5, wait_pct: 5, ..PProfile::default() }),
@@ -775,6 +778,7 @@ pub fn gen_plan(prop: &str, seed: u64, variant: u64) -> Plan {
         "C10" | "C11" | "C12" if variant % 4 == 0 => gen_enum_chaos(prop, seed, variant),
         "C18" if variant % 3 == 0 => gen_c18_lockstep(seed),
         "C18" if variant % 3 == 1 => gen_c18_typed(seed),
+        "C02" if variant % 4 == 3 => gen_p_family(prop, seed, &PProfile { clients: (2, 3), keys: (2, 4), ops: (6, 20), collide_pct: 100, over_capacity_pct: 100, remove_pct: 30, lookup_pct: 30, if_present_pct: 3, wait_pct: 3, faulty_pct: 80, chaos_clear_pct: 0, ttl_pct: 15, ..PProfile::default() }),
         "C02" if variant % 4 == 1 => gen_p_family(prop, seed, &PProfile { clients: (1, 2), keys: (1, 2), ops: (5, 16), wait_pct: 35, lookup_pct: 30, remove_pct: 5, if_present_pct: 5, over_capacity_pct: 20, collide_pct: 0, chaos_clear_pct: 0, barrier_every: (3, 8), sleeps: false, ..PProfile::default() }),
         "C01" | "C02" | "C06" | "C07" | "C08" | "C10" | "C11" | "C12" | "C13" | "C15" | "C17" | "C18" | "C20" => gen_p_family(prop, seed, &profile_for(prop)),
         _ => gen_ttl_family(prop, seed, false),
